@@ -274,12 +274,21 @@ def shared_state_writers():
         mod, cls = _shared_bindings(tree)
         cls_names = {c_ for c_, _a in cls}
 
+        # class-level mutable attributes that no method of the package re-binds on the instance (`self.X = ...`): reading them through `self` reaches the
+        # one object shared by every instance, so `self.X[k] = v` / `self.X.append(v)` writes process-wide state
+        cls_attrs = {a_ for _c, a_ in cls}
+        rebound = {t_.attr for n_ in ast.walk(tree) for t_ in (n_.targets if isinstance(n_, ast.Assign) else [n_.target] if isinstance(n_, (ast.AnnAssign, ast.AugAssign)) else [])
+                   if isinstance(t_, ast.Attribute) and isinstance(t_.value, ast.Name) and t_.value.id == "self"}
+        via_self = cls_attrs - rebound
+
         def is_shared(e, aliases):
             a, b = _root(e)
             if a is None:
                 return False
             if b is None:
                 return a in mod or a in aliases
+            if a == "self":
+                return b in via_self
             return a == "cls" or a in cls_names or a in aliases or a in mod
 
         def fresh(e):
@@ -294,7 +303,7 @@ def shared_state_writers():
                             out.append((fn, fname, s.lineno, ast.unparse(t)))
                 for c_ in ast.walk(s) if not isinstance(s, (ast.If, ast.For, ast.While, ast.Try, ast.With, ast.FunctionDef, ast.ClassDef)) else []:
                     if isinstance(c_, ast.Call) and isinstance(c_.func, ast.Attribute) and c_.func.attr in MUTATORS and c_.func.attr != "write":
-                        if is_shared(c_.func.value, aliases) and not (isinstance(c_.func.value, ast.Attribute) and isinstance(c_.func.value.value, ast.Name) and c_.func.value.value.id == "self"):
+                        if is_shared(c_.func.value, aliases):
                             out.append((fn, fname, c_.lineno, ast.unparse(c_)[:80]))
                 if isinstance(s, ast.Global):
                     out.append((fn, fname, s.lineno, "global " + ", ".join(s.names)))
